@@ -8,6 +8,7 @@ import (
 	"math/rand"
 	"os"
 	"reflect"
+	"sort"
 	"strings"
 
 	"github.com/openconfig/ygot/internal/verifharness/reg"
@@ -238,6 +239,15 @@ func jsonrtStream(rng *rand.Rand, n int, tier string, out string) (*Summary, err
 			return nil, err
 		}
 		files = append(files, fs...)
+		// ---- a struct inside the tree rendered as a document of its own (Marshal7951 on a
+		// container): its members are at the top level, so each carries its module prefix, whatever
+		// the same struct type looked like when it was rendered inside a whole tree earlier in this
+		// process.  One container type per package, with its own schema term.
+		if sfs, err := c19SubRender(rng, p, &id, sum, out); err != nil {
+			return nil, err
+		} else {
+			files = append(files, sfs...)
+		}
 	}
 	sum.Cases = id
 	sum.Extra = map[string]interface{}{"case_files": files}
@@ -314,4 +324,76 @@ func binaryTypeOf(t reflect.Type) reflect.Type {
 		}
 	}
 	return nil
+}
+
+// c19SubRender: JRender cases for instances of one container type of the package, each with the
+// schema of that container as the root schema (file cases_jsonrt_sub_<pkg>_*.v).
+func c19SubRender(rng *rand.Rand, p *reg.Pkg, id *int, sum *Summary, out string) ([]string, error) {
+	g := newTreeGen(rng, p)
+	g.pField = 0.9
+	var subs []reflect.Value
+	vdCollectStructs(reflect.ValueOf(g.genTree()), &subs, 0)
+	var conts []reflect.Type
+	seenT := map[reflect.Type]bool{}
+	for _, v := range subs {
+		t := v.Type().Elem()
+		if e := p.SchemaTree[t.Name()]; e != nil && e.IsContainer() && !seenT[t] {
+			seenT[t] = true
+			conts = append(conts, t)
+		}
+	}
+	if len(conts) == 0 {
+		return nil, nil
+	}
+	sort.Slice(conts, func(i, j int) bool { return conts[i].Name() < conts[j].Name() })
+	st := conts[rng.Intn(len(conts))]
+	se := p.SchemaTree[st.Name()]
+	c := &schemaCtx{pkg: p, root: p.NewRoot()}
+	_, env := schemaTerm(p)
+	tf := &treeFile{pkg: p, cf: &caseFile{typ: "tcase"}, sch: "(SCont " + c.fieldsTerm(st, se) + ")", env: env, typ: "tcase", fn: "tmismatches", extra: "Corr.TreeCorr"}
+	n := 0
+	for try := 0; try < 40 && n < 12; try++ {
+		g.pField = 0.6
+		var cands []reflect.Value
+		vdCollectStructs(reflect.ValueOf(g.genTree()), &cands, 0)
+		for _, v := range cands {
+			if v.Type().Elem() != st || n >= 12 {
+				continue
+			}
+			sg, ok := v.Interface().(ygot.GoStruct)
+			if !ok {
+				continue
+			}
+			cfg := randJcfg(rng)
+			cfg.appendMod = cfg.appendMod || n%2 == 0
+			tt := treeTerm(sg)
+			m, err, pan := safeConstructJSON(sg, cfg.ygot())
+			ro := coqErr
+			switch {
+			case pan:
+				ro = coqPanic
+				sum.finding(Finding{Signature: "render-panic", What: "ConstructIETFJSON panics on a container of the tree: " + err.Error(), Input: map[string]interface{}{"pkg": p.Name, "struct": st.Name(), "tree": tt}})
+			case err == nil:
+				jb, _ := json.Marshal(m)
+				jt, _ := jsonBytesTerm(jb)
+				ro = coqOk(jt)
+				// C19 oracle: at the top level every member carries a module prefix
+				sum.OracleRuns++
+				if cfg.appendMod {
+					for k := range m {
+						if !strings.Contains(k, ":") {
+							sum.finding(Finding{Signature: "render/top-level-member-without-module", What: "member " + k + " of a container rendered as a document has no module prefix (AppendModuleName)",
+								Input: map[string]interface{}{"pkg": p.Name, "struct": st.Name(), "tree": tt}, Observed: string(jb)})
+							break
+						}
+					}
+				}
+			}
+			tf.cf.add(fmt.Sprintf("JRender %d %s %s %s", *id, cfg.term(), tt, ro))
+			*id++
+			n++
+			sum.count("sub_render", st.Name())
+		}
+	}
+	return tf.write(out, "jsonrt_sub", 150)
 }
